@@ -42,6 +42,9 @@ def future_poll(ctx):
         what = v.kind if isinstance(v, Future) else (v.name if isinstance(v, Agg) else getattr(v, 'ty', type(v).__name__))
         if not (isinstance(v, Agg) and v.name.startswith(('{coroutine@', '{async'))):
             st.trace.append(('await', str(what)[:120], st.env.get('held', ())))
+    if isinstance(v, Future) and v.kind == 'pending-forever':
+        # a future a spec declares not ready (e.g. the other arm of a select! under study)
+        return Agg('Poll', {}, 1, {}, ex.si.enums['Poll'])
     if isinstance(v, Future):
         h = AWAIT.get(v.kind)
         if h is None:
@@ -1788,6 +1791,55 @@ def vec_clear_generic(ctx):
     return UNIT
 
 
+@contract(r'^(?:std::option::)?Option::<.*>::and_then::<.*>$')
+def option_and_then(ctx):
+    """Option::and_then(f): None -> None; Some(x) -> f(x) with the real closure / function item"""
+    ex, st = ctx.ex, ctx.st
+    v, _ = to_enum(ex, st, ctx.args[0])
+    d = v.discr
+    is_some = z3.BoolVal(d == 1) if isinstance(d, int) else simp(d == BV(1, 64))
+    t, f = ex.branch(st, is_some)
+    outs = []
+    if t:
+        s2 = st.fork() if f else st
+        ex.assume(s2, is_some)
+        hm = re.match(r'^(?:std::option::)?Option::<(.*)>::and_then::<', ctx.callee, re.S)
+        tys = generic_args('X<%s>' % hm.group(1))[1] if hm else []
+        x = payload(ex, s2, v, 1, 0, tys[0].strip() if tys else 'unknown')
+        c2 = type(ctx)(ex, s2, ctx.fr, ctx.callee, ctx.args, ctx.dest_ty)
+        rs = apply_callable(c2, ctx.args[1], [x])
+        if rs is None:
+            return NotImplemented
+        outs += list(rs)
+    if f:
+        if t:
+            ex.assume(st, z3.Not(is_some))
+        outs.append((st, mk_option(ex, None)))
+    return outs
+
+
+@contract(r'^CHashMap::<.*>::is_empty$|^CHashMap::<.*>::len$')
+def chashmap_len(ctx):
+    """how many entries a concurrent map holds is state of the environment (other tasks fill and drain it): any value, the same
+    one for the same map within a path, reported among the inputs of a counterexample"""
+    ex, st = ctx.ex, ctx.st
+    m = ctx.args[0]
+    seen = 0
+    while isinstance(m, Ref) and seen < 4:
+        nxt = ex.load(st, m.cell, m.path)
+        if not isinstance(nxt, Ref):
+            break
+        m = nxt
+        seen += 1
+    key = 'chashmap_len_%s' % ((m.cell if isinstance(m, Ref) else id(m)),)
+    n = st.env.get(key)
+    if n is None:
+        n = z3.BitVec(fresh_name('concurrent_map_len'), 64)
+        st.env[key] = n
+        st.env['inputs'] = dict(st.env.get('inputs', {}), concurrent_map_len=n)
+    return Bool(simp(n == BV(0, 64))) if ctx.callee.endswith('is_empty') else Int(n, 64, False)
+
+
 @contract(r'^Result::<.*>::and_then::<.*>$')
 def result_and_then(ctx):
     """Result::and_then(f): Err(e) -> Err(e); Ok(x) -> f(x) with the real closure body"""
@@ -2259,6 +2311,10 @@ def closure_call(ctx):
 @contract(r' as Iterator>::enumerate$')
 def iter_enumerate(ctx):
     """iter.enumerate(): the lazy sequence of (index, element) pairs"""
+    it0 = ctx.args[0]
+    if isinstance(it0, Agg) and it0.name == 'slice::Iter' and re.search(r'slice::IterMut<', ctx.callee):
+        # a for loop over iter_mut().enumerate(): stepped by Enumerate::next (elements are handed out by reference)
+        return Agg('iter::Enumerate', {0: it0, 1: Int(BV(0, 64), 64, False)})
     a = _as_lazy_seq(ctx, ctx.args[0])
     if a is None:
         return NotImplemented
